@@ -633,3 +633,11 @@ def l6(ctx):
 
 
 RULES.append(l6)
+
+
+@rule("MC", doc="must-call census: no function of this property's files has gained an early exit in front of work it always did (every crate-local call that lay on all paths to a normal return in the reviewed tree still does)")
+def mc(ctx):
+    C.must_call_census(ctx, ctx.lib(), ['src/parse.rs', 'src/lang.rs', 'src/rewrite/pattern.rs'])
+
+
+RULES.append(mc)
